@@ -49,8 +49,11 @@ def sweep_programs():
 
 def variants(prog):
     c = prog['cmds'][0]
-    src = prog['user'][0]
     cmd = ('cmd', c[0], tuple(c[1]), False, 1)
+    if not prog['user']:
+        # nothing to edit: kill the first build, recover, build once more
+        return {'first': {'spec': (cmd, cmd), 'kill_at': 0}}
+    src = prog['user'][0]
     return {
         # the killed command is the first one ever run in the project (creation of .redo included)
         'first': {'spec': (cmd, ('write', src, 3), cmd), 'kill_at': 0},
@@ -61,7 +64,8 @@ def variants(prog):
 
 def expectations(prog, d):
     """TLC: Fresh etc. on the uncrashed histories; returns {variant: history (list of steps with snapshots)}"""
-    res, hs = histories.gen_histories(prog, d, max_hist=5, max_cmds=3, invariants=['Fresh', 'NoTmpLeft'], workers=4, timeout=900)
+    res, hs = histories.gen_histories(prog, d, max_hist=5 if prog['user'] else 3, max_cmds=3, invariants=['Fresh', 'NoTmpLeft'],
+                                      workers=4, timeout=900)
     if res.error or res.violated:
         raise common.ToolError('killsweep: TLC on %s: %s' % (prog['name'], res.error or res.violated))
     # histories shorter than MaxHist are not exported by Export (maximal only): take prefixes of the long ones
